@@ -122,32 +122,56 @@ def run(facts):
     b = cands[0]
     eb = ExprBuilder(b, facts, inline=True)
     aggs = []
+    indirect = []
+    probs = []
+
+    def is_tagged(x):
+        return any(y[0] == "call" and y[1].endswith("ptr_map") for y in walk(x)) or any(y[0] == "bin" and y[1] == "BitOr" for y in walk(x))
+
+    def pairing(bi, data, vt):
+        names = [y[1] for y in walk(vt) if y[0] == "static"]
+        rels = relations_at(b, bi, facts, inline=True)
+        parity = None
+        for r in rels:
+            if r[0] in ("eq", "ne"):
+                x, c = canon(r[1]), canon(r[2])
+                if isinstance(x, tuple) and x[0] == "bin" and x[1] == "BitAnd" and isinstance(c, tuple) and c[0] == "const" and c[1] in (0, 1):
+                    mask = [y for y in (x[2], x[3]) if isinstance(y, tuple) and y[0] == "const"]
+                    if mask and mask[0][1] == 1:
+                        parity = c[1] if r[0] == "eq" else 1 - c[1]
+
+        def is_len(x):
+            x = canon(x)
+            return isinstance(x, tuple) and x[0] == "call" and x[1].rsplit("::", 1)[-1] == "len"
+        nonempty = any((r[0] == "truth" and "is_empty" in str(r[1]) and r[2] == 0) or
+                       (r[0] == "ne" and ((is_len(r[1]) and canon(r[2]) == ("const", 0)) or (is_len(r[2]) and canon(r[1]) == ("const", 0)))) or
+                       (r[0] == "lt" and canon(r[1]) == ("const", 0) and is_len(r[2])) for r in rels)
+        aggs.append((bi, names[0] if names else None, is_tagged(data), parity, nonempty))
     for bi, blk in enumerate(b.blocks):
         for si, s in enumerate(blk["stmts"]):
-            if s["k"] == "assign" and s["rv"]["k"] == "agg" and s["rv"].get("adt") == "bytes::Bytes":
+            if s["k"] != "assign" or s["rv"]["k"] != "agg":
+                continue
+            if s["rv"].get("adt") == "bytes::Bytes":
                 f = dict(zip(s["rv"]["fields"], s["rv"]["ops"]))
                 data = canon(eb.operand(f["data"], (bi, si)))
                 vt = canon(eb.operand(f["vtable"], (bi, si)))
-                names = [y[1] for y in walk(vt) if y[0] == "static"]
-                tagged = any(x[0] == "call" and x[1].endswith("ptr_map") for x in walk(data)) or any(x[0] == "bin" and x[1] == "BitOr" for x in walk(data))
-                rels = relations_at(b, bi, facts, inline=True)
-                parity = None
-                for r in rels:
-                    if r[0] in ("eq", "ne"):
-                        x, c = canon(r[1]), canon(r[2])
-                        if isinstance(x, tuple) and x[0] == "bin" and x[1] == "BitAnd" and isinstance(c, tuple) and c[0] == "const" and c[1] in (0, 1):
-                            mask = [y for y in (x[2], x[3]) if isinstance(y, tuple) and y[0] == "const"]
-                            if mask and mask[0][1] == 1:
-                                parity = c[1] if r[0] == "eq" else 1 - c[1]
-                def is_len(x):
-                    x = canon(x)
-                    return isinstance(x, tuple) and x[0] == "call" and x[1].rsplit("::", 1)[-1] == "len"
-                nonempty = any((r[0] == "truth" and "is_empty" in str(r[1]) and r[2] == 0) or
-                               (r[0] == "ne" and ((is_len(r[1]) and canon(r[2]) == ("const", 0)) or (is_len(r[2]) and canon(r[1]) == ("const", 0)))) or
-                               (r[0] == "lt" and canon(r[1]) == ("const", 0) and is_len(r[2])) for r in rels)
-                aggs.append((bi, names[0] if names else None, tagged, parity, nonempty))
+                if any(y[0] == "static" for y in walk(vt)) and not any(y[0] == "phi" for y in walk(vt)):
+                    pairing(bi, data, vt)
+                else:
+                    # the (data, vtable) pair was chosen earlier and is consumed here: both must be projections of one value
+                    src_v = [y[1] for y in walk(vt) if y[0] == "field" and isinstance(y[1], tuple) and y[1][0] == "phi"]
+                    src_d = [y[1] for y in walk(data) if y[0] == "field" and isinstance(y[1], tuple) and y[1][0] == "phi"]
+                    if src_v and src_d and src_v[0] == src_d[0]:
+                        indirect.append(bi)
+                    else:
+                        probs.append("the handle's data word and vtable are not chosen together")
+            elif s["rv"].get("ak") == "tuple":
+                ops = [canon(eb.operand(o, (bi, si))) for o in s["rv"]["ops"]]
+                vts = [o for o in ops if any(y[0] == "static" and y[1] in (even[0], odd[0]) for y in walk(o))]
+                if len(vts) == 1:
+                    others = [o for o in ops if o is not vts[0]]
+                    pairing(bi, ("agg", "tuple", tuple(others)), vts[0])
     key = "From<Box<[u8]>>|parity dispatch"
-    probs = []
     if len(aggs) != 2:
         probs.append("expected two handle constructions (even / odd), found %d" % len(aggs))
     for (bi, vt, tagged, parity, nonempty) in aggs:
@@ -164,28 +188,36 @@ def run(facts):
     else:
         res.ok(key, b.loc(), "low bit == 0 -> (ptr | KIND_VEC, even vtable); else (ptr, odd vtable); empty box returns early", nontrivial=True)
     # vtable identity tests: a decision that singles out the promotable representation must cover both parities alike
-    from .flow import edge_conditions
+    from .flow import edge_conditions, first_effect_block
     n_tests = 0
     for fb in facts.fn_bodies():
         hits = {}
         for (s_, d_, c_, v_) in edge_conditions(fb, facts):
-            st = [y[1] for y in walk(canon(c_)) if y[0] == "static" and y[1] in (even[0], odd[0])]
-            if st and v_ == ("eq", 1):
-                hits.setdefault(st[0], []).append(d_)
-
-        def follow(bi):
-            seen = set()
-            while fb.blocks[bi]["term"]["k"] == "goto" and all(x["k"] not in ("assign", "set_discr", "copy_nonoverlapping") for x in fb.blocks[bi]["stmts"]) and bi not in seen:
-                seen.add(bi)
-                bi = fb.blocks[bi]["term"]["target"]
-            return bi
+            cc = canon(c_)
+            st = [y[1] for y in walk(cc) if y[0] == "static" and y[1] in (even[0], odd[0])]
+            if not st or v_[0] != "eq":
+                continue
+            # which edge means "this handle uses that vtable": eq(..) == true, ne(..) == false, !(..) flips
+            sense = 1
+            x = cc
+            while isinstance(x, tuple) and x and x[0] == "un" and x[1] == "Not":
+                sense = 1 - sense
+                x = x[2]
+            if isinstance(x, tuple) and x and x[0] == "call" and x[1].rsplit("::", 1)[-1] == "ne":
+                sense = 1 - sense
+            elif isinstance(x, tuple) and x and x[0] == "bin" and x[1] == "Ne":
+                sense = 1 - sense
+            elif not (isinstance(x, tuple) and x and ((x[0] == "call" and x[1].rsplit("::", 1)[-1] == "eq") or (x[0] == "bin" and x[1] == "Eq"))):
+                continue
+            if v_[1] == sense:
+                hits.setdefault(st[0], []).append(first_effect_block(fb, d_))
         if not hits:
             continue
         n_tests += 1
         key = "%s|vtable identity test covers both parities" % fb.id
         if set(hits) != {even[0], odd[0]}:
             res.bad(key, fb.loc(), "the handle is compared with %s only: behaviour differs between even and odd allocation addresses" % sorted(hits))
-        elif sorted(set(follow(x) for x in hits[even[0]])) != sorted(set(follow(x) for x in hits[odd[0]])):
+        elif sorted(set(hits[even[0]])) != sorted(set(hits[odd[0]])):
             res.bad(key, fb.loc(), "the even and the odd vtable lead to different code")
         else:
             res.ok(key, fb.loc(), "both promotable vtables are tested and lead to the same branch", nontrivial=True)
